@@ -32,7 +32,7 @@ Fin(x) == x.s # 2
 
 (* ---- operation classes --------------------------------------------------------------------- *)
 ExactOps == {"view", "transpose", "t", "permute", "select", "slice", "unsqueeze", "expand", "cat", "stack", "split",
-             "slice_step", "select_neg", "squeeze", "flatten",
+             "slice_step", "select_neg", "squeeze", "flatten", "add_tensor", "mul_t1", "div_t1",
              "neg", "relu", "clone", "detach", "abs", "add1", "sum", "gelu", "contiguous", "lt", "copy_", "div_tensor"}
 RescaleOps == {"mul", "div", "to", "mul_t", "div_t", "rmul"}
 RequantOps == {"softmax", "where"}
